@@ -2,6 +2,7 @@
 package main
 
 import (
+	"evylang.dev/evy/vdrv/c02"
 	"evylang.dev/evy/vdrv/c08"
 	"evylang.dev/evy/vdrv/c14"
 	"evylang.dev/evy/vdrv/c15"
@@ -11,6 +12,8 @@ import (
 
 func driver(prop string) core.Driver {
 	switch prop {
+	case "C02":
+		return &c02.D{}
 	case "C14":
 		return &c14.D{}
 	case "C08":
